@@ -35,6 +35,12 @@ SPEC = {
         "line:unterminated-last", "line:CRLF", "line:LF", "cstr:get_cstr", "cstr:pget_cstr",
         "text:get_line:unterminated-last", "text:get_line:CRLF", "text:get_cstr:empty", "text:read:beyond-end", "text:skip_if:match", "text:sub_bits",
         "bits:write:single-bit", "bits:write:field64", "bits:truncate:mid-byte", "bits:read:64", "bits:pread", "bits:read:field-roundtrip",
+        "alias:write(ptr,size):reallocates:sso", "alias:write(ptr,size):reallocates:heap", "alias:write(ptr,size):fits-capacity:heap",
+        "alias:write(string):reallocates:sso", "alias:write(string):reallocates:heap", "alias:put<T>:reallocates:heap", "alias:put<T>:reallocates:sso",
+        "alias:pput<T>:in-place", "alias:source-range:whole", "alias:source-range:prefix", "alias:source-range:middle", "alias:source-range:suffix",
+        "own:StringReader(shared_ptr) + caller reference dropped", "own:BitReader(shared_ptr) + caller reference dropped",
+        "own:copy of an owning reader after the original was destroyed", "reader:ctor(shared_ptr,offset):caller-reference-dropped",
+        "bits:reader:ctor(shared_ptr,offset):caller-reference-dropped", "enumerated:alias-cases", "enumerated:ownership-cases",
         "w:Block:put<T>", "w:SW:reset", "w:SW:extend_to(default-fill)", "w:BW:pwrite(string)",
     ],
     "exhaustive": {"quick": False, "thorough": False},
@@ -43,6 +49,7 @@ SPEC = {
     "assumptions": ASSUME_COMMON + [
         "native (unsuffixed) values are read back through get<T>/pget<T> with T itself at suitably aligned addresses and through an alignment-1 POD wrapper elsewhere",
         "NaN payload preservation is observed on x86-64 SSE (float/double passed in xmm registers); an x87 ABI would quiet signalling NaNs outside phosg's control",
+        "aliasing: raw blocks (write) and by-reference values (put<T>, in-place pput<T>) whose storage is the writer's own buffer are demanded; pput<T> with an aliased reference AND growth is only driven with --arg alias_pput=1 (see notes/c01.md)",
         "only in-range operations are issued (bounds behaviour belongs to C02); get_line is driven only over text where a CR is either part of CRLF or followed by an ordinary byte",
     ],
 }
